@@ -101,7 +101,6 @@ int main(int argc, char **argv) {
 			e = c12_entry_of(d[0]);
 			hx = vh_hex(d, n > 4000 ? 4000 : n);
 			vh_case("index=%ld file=%s entry=%s len=%llu hex%s=%s", idx - 1, line, ENTRY[e], (unsigned long long)n, n > 4000 ? "(first 4000 bytes)" : "", hx);
-			vh_fp(vh_hash_bytes(d, n));
 			clock_gettime(CLOCK_MONOTONIC, &t0);
 			if (plain) { run_one(d, n, d[0]); run_one(d, n, d[0] ^ 0x10u); }
 			else {
